@@ -88,6 +88,38 @@ structure PyWit where
   stack : List Bytes
 deriving Repr, Inhabited
 
+/-! ### strings (lists of characters) and possibly-None values -/
+
+/-- a use of a value that may be `None` where Python needs the value (`None[0]`, `len(None)`, `[x] + None`): `TypeError` -/
+def unwrap {α : Type} : Option α → Except PyErr α
+  | some a => .ok a
+  | none => .error .typeError
+
+def lowerA (c : Char) : Char := if 'A' ≤ c ∧ c ≤ 'Z' then Char.ofNat (c.toNat + 32) else c
+def upperA (c : Char) : Char := if 'a' ≤ c ∧ c ≤ 'z' then Char.ofNat (c.toNat - 32) else c
+
+/-- `str.lower()` on ASCII strings; Unicode case mapping is outside the modelled subset (`unsupported`, never a wrong answer) -/
+def strLower (s : List Char) : Except PyErr (List Char) :=
+  if s.any (fun c => c.toNat ≥ 128) then .error .unsupported else .ok (s.map lowerA)
+def strUpper (s : List Char) : Except PyErr (List Char) :=
+  if s.any (fun c => c.toNat ≥ 128) then .error .unsupported else .ok (s.map upperA)
+
+/-- `s.find(c)` for one character: the first index, or -1 -/
+def strFind (s : List Char) (c : Char) : Int :=
+  if s.contains c then (s.idxOf c : Nat) else -1
+
+/-- `s.rfind(c)` for one character: the last index, or -1 -/
+def strRfind (s : List Char) (c : Char) : Int :=
+  match ((List.range s.length).filter (fun i => s.getD i ' ' == c)).getLast? with
+  | some i => (i : Nat)
+  | none => -1
+
+/-- Python `l[lo:hi]` on a list, negative bounds counted from the end, everything clamped; never raises -/
+def sliceL {α : Type} (l : List α) (lo hi : Int) : List α :=
+  let n : Int := l.length
+  let norm := fun (x : Int) => if x < 0 then (if x + n < 0 then 0 else x + n) else (if x > n then n else x)
+  (l.drop (norm lo).toNat).take ((norm hi).toNat - (norm lo).toNat)
+
 /-- `math.ceil(num / den)` for a positive denominator, computed exactly -/
 def ceilDiv (num den : Int) : Int := -((-num) / den)
 
